@@ -2,14 +2,14 @@
    pointer-level reading of well-formedness (HeapOK). *)
 From Coq Require Import List ZArith Bool Arith Lia Permutation.
 From NT Require Import Sx Rose ListFacts RoseFacts Surgery SurgeryFacts Machine WF MachineFacts PreserveSteps PreserveOps
-  PreserveKeepClones Invariant Heap HeapProofs HeapRemove HeapMore HeapMove HeapShort.
+  PreserveKeepClones Invariant Heap HeapProofs HeapRemove HeapMore HeapMove HeapShort HeapKeep.
 Import ListNotations.
 
 (* operations whose simulation proof is closed *)
 Definition covered_heap (o : op) : bool :=
   match o with
   | OAdd _ _ _ _ _ _ => true
-  | ORemove _ _ keep _ => negb keep
+  | ORemove _ _ _ _ => true
   | ORemoveChildren _ _ => true
   | OClear _ => true
   | OMove _ _ _ _ _ => true
@@ -30,7 +30,7 @@ Proof.
   - now apply sim_op_add.
   - now apply sim_op_shortcut.
   - now apply sim_op_move.
-  - destruct keep; [discriminate C|]. now apply sim_op_remove_plain.
+  - destruct keep; [now apply sim_op_remove_keep|now apply sim_op_remove_plain].
   - now apply sim_op_remove_children.
   - destruct deep; [discriminate C|]. now apply sim_op_sort_flat.
   - now apply sim_op_meta.
